@@ -585,7 +585,21 @@ fn directed_prelude(ty: &str, rng: &mut Rng) -> Option<(u64, Vec<Vec<u64>>)> {
             vec![K_MERGE, ra, rb],                       // both witnesses are gone
             vec![K_MERGE, rb, ra],
         ])),
-        "mapor" | "mapmm" | "mapmo" | "mapmv" => Some(match rng.below(6) {
+        "mapor" | "mapmm" | "mapmo" | "mapmv" => Some(match rng.below(7) {
+            // one actor updates a key twice, the remover saw only the first update; a snapshot taken before the remove
+            // (both updates, no remove) is merged with the replica that applied it: equal entry clocks, different values
+            6 => (1, vec![
+                vec![K_EDIT, ra, 0, 0, 1, m0, 0],        // A: update k0                       (op 0)
+                vec![K_DELIVER, rc, nodup, 0],
+                vec![K_EDIT, ra, 0, 0, 1, m1, 0],        // A: update k0 again                 (op 1)
+                vec![K_SPAWN, 0, ra],                    // D := snapshot of A (both updates, no remove)
+                vec![K_EDIT, rc, 0, 5],                  // C: rm k0 (saw only op 0)           (op 2)
+                vec![K_DELIVER, ra, nodup, 0],           // A gets the remove
+                vec![K_DELIVER, rc, nodup, 0],           // C gets the second update
+                vec![K_LAWS, 3, ra, rc],
+                vec![K_MERGE, 3, ra],                    // D <- A
+                vec![K_MERGE, rb, rc],
+            ]),
             // a parked remove travels inside a state to a replica that already holds the update it
             // covers but never received the remove op; then again through an empty relay
             5 => (1, vec![
@@ -668,13 +682,9 @@ fn directed_prelude(ty: &str, rng: &mut Rng) -> Option<(u64, Vec<Vec<u64>>)> {
                 vec![K_EDIT, ra, 0, 0, 1, m0, 0],        // A: update k0                       (op 0)
                 vec![K_DELIVER, rc, nodup, 0],
                 vec![K_EDIT, ra, 0, 0, 1, m1, 0],        // A: update k0 again                 (op 1)
-                vec![K_SPAWN, 0, ra],                    // D := snapshot of A (both updates, no remove)
                 vec![K_EDIT, rc, 0, 5],                  // C: rm k0 (saw only op 0)           (op 2)
                 vec![K_DELIVER, ra, nodup, 0],           // A gets the remove
                 vec![K_DELIVER, rc, nodup, 0],           // C gets the second update
-                vec![K_LAWS, 3, ra, rc],
-                vec![K_MERGE, 3, ra],                    // D <- A: equal entry clocks, different values
-                vec![K_MERGE, rb, rc],
             ]),
         }),
         "list" => Some((0, vec![
